@@ -145,7 +145,13 @@ def enum_tools(net, tier):
          ["merge", "case_first"], ["merge", "case_second"]]
     if tier != "quick":
         T.append(["cont_elem", 3])
+    declining = 0
     for i in net.line.index:
+        if float(net.line.at[i, "c_nf_per_km"]) != 0. or float(net.line.at[i, "g_us_per_km"]) != 0.:
+            # only_valid_replace declines lines with shunt admittance: quick keeps one such target per net
+            declining += 1
+            if tier == "quick" and declining > 1:
+                continue
         T.append(["line2imp", int(i), "net"])
         T.append(["line2imp2line", int(i)])
         if tier != "quick":
